@@ -1,7 +1,6 @@
 """Defines the templaters."""
 
 import ast
-import re
 from collections.abc import Iterable, Iterator, Mapping
 from string import Formatter
 from typing import Any, Callable, NamedTuple, Optional
@@ -207,6 +206,38 @@ class PythonTemplater(RawTemplater):
             live_context[k] = self.infer_type(live_context[k])
         return live_context
 
+    @staticmethod
+    def _dot_notation_hack(raw_str: str) -> str:
+        """Rewrite replacement fields with a "." in their name as dict lookups.
+
+            Example:  {foo.bar:>4} => {sqlfluff[foo.bar]:>4}
+
+        The string is taken apart with the same parser `str.format` uses, so
+        only real replacement fields are rewritten (not text within escaped
+        braces such as ``{{1.5}}``) and any conversion or format spec stays
+        attached to its own field.
+        """
+        try:
+            parsed = list(Formatter().parse(raw_str))
+        except ValueError:
+            # Not a valid format string. Leave it alone, rendering it
+            # will report the problem.
+            return raw_str
+        buff = []
+        for literal_text, field_name, format_spec, conversion in parsed:
+            buff.append(literal_text.replace("{", "{{").replace("}", "}}"))
+            if field_name is None:
+                continue
+            if "." in field_name:
+                field_name = f"sqlfluff[{field_name}]"
+            buff.append("{" + field_name)
+            if conversion:
+                buff.append("!" + conversion)
+            if format_spec:
+                buff.append(":" + format_spec)
+            buff.append("}")
+        return "".join(buff)
+
     @large_file_check
     def process(
         self,
@@ -247,9 +278,7 @@ class PythonTemplater(RawTemplater):
                 Example:  {foo.bar} => {sqlfluff[foo.bar]}
             """
             # Hack to allow template variables with dot notation (e.g. foo.bar)
-            raw_str_with_dot_notation_hack = re.sub(
-                r"{([^:}]*\.[^:}]*)(:\S*)?}", r"{sqlfluff[\1]\2}", raw_str
-            )
+            raw_str_with_dot_notation_hack = self._dot_notation_hack(raw_str)
             templater_logger.debug(
                 "    Raw String with Dot Notation Hack: %r",
                 raw_str_with_dot_notation_hack,
